@@ -287,6 +287,18 @@ def check_C18(chk):
     if zrc != 0 or not zrecs:
         chk.failing_input("creating and reading zero-length regions terminated the process (rc=%s): %s" % (zrc, zerr[-400:]),
                           {"rc": zrc, "stderr": zerr[-800:]}, key="shm:zero-length-abort")
+    # a failing mmap (ENOMEM injected by the shim) must end in a panic or an error - never in a write through a null pointer or in a
+    # region whose length / contents differ from what was created or sent
+    mrecs, _, mrc, merr = C.run_harness(bins["default"], "shm", ["mmapfail"], shim=True, timeout=120)
+    mm = [r for r in mrecs if r.get("kind") == "mmapfail"]
+    chk.coverage["mmap_failure_scenarios"] = [(r["what"], r["len"], r["outcome"]) for r in mm]
+    if len(mm) < 6:
+        chk.failing_input("the failing-mmap scenarios did not complete (rc=%s): %s" % (mrc, merr[-300:]), {"rc": mrc}, key="mmapfail:incomplete")
+    for r in mm:
+        if r["outcome"] not in ("panic", "error", "intact"):
+            chk.failing_input("with mmap failing (ENOMEM) %s of a %d-byte region %s" % (r["what"], r["len"],
+                              "handed out a region of another length / content" if r["outcome"] == "wrong" else "terminated the process by %s (access through an invalid pointer)" % r["outcome"]),
+                              r, key="mmapfail:%s:%d" % (r["what"], r["len"]))
     fails, bad = judge(chk, items, False, "c18", near_boundary)
     # buffer discipline read off the receiver traces: every kernel write lies inside the offered buffer
     over = [it for it in items if it["recv_obs"] and any(got > want for want, got in it["recv_obs"]["reads"])]
